@@ -66,7 +66,10 @@ def session_config(case):
     sessions, viol = [], []
     tmp = tempfile.mkdtemp(prefix="verif_c05_")
     try:
-        snaps = common.make_snapshots(frames, cfg["types"], H)
+        from PyMatterSim.reader.reader_utils import Snapshots
+        Hs = [np.array(h, dtype=float) / S for h in cfg["Hs"]] if "Hs" in cfg else [H] * len(frames)   # per-frame cell (sheared runs)
+        ss = [common.make_snapshot(f, cfg["types"], Hs[i], i) for i, f in enumerate(frames)]
+        snaps = Snapshots(nsnapshots=len(ss), snapshots=ss)
         for k, op in enumerate(case["ops"]):
             fn = os.path.join(tmp, f"nl{k}.dat")
             ppp = np.array(cfg["ppp"])
@@ -169,6 +172,15 @@ def gen_configs(rng, n):
         ppp = [rng.randint(0, 1) for _ in range(d)] if rng.random() < 0.5 else [1] * d
         lmin = min(H[i][i] for i in range(d))
         cfg = {"H": H, "ppp": ppp, "S": S, "types": types, "frames": frames, "sharp": 0, "id": 100000 + len(out)}
+        if nf > 1 and rng.random() < 0.5:       # sheared between frames: tilts change, edge lengths do not
+            Hs = [H]
+            for _ in range(nf - 1):
+                G = [row[:] for row in H]
+                for i in range(d):
+                    for j in range(i):
+                        G[i][j] = rng.randint(-(H[j][j] // 2), H[j][j] // 2)
+                Hs.append(G)
+            cfg["Hs"] = Hs
         R = [[rng.randint(lmin // 6, lmin // 2) for _ in range(K)] for _ in range(K)]
         ops = [{"kind": "nn", "n": rng.randint(1, N - 2)}, {"kind": "nn", "n": min(N - 2, 12)},
                {"kind": "cut", "rn": rng.randint(lmin // 5, (3 * lmin) // 5)},
